@@ -152,6 +152,21 @@ def balance_of(facts, body):
     for rb in body.return_blocks():
         for s in at.get((rb, term_idx(body, rb)), set()):
             ud, md, ur, mr = get(s.user)
+            # equalities known on this path (a `cmp(..) is Equal` arm, an `==` test): the two
+            # effects may differ by a multiple of (x - y)
+            eqs = []
+            for a, v in expand_state(body, s, hist=True).lits:
+                if v and a[0] == "variant" and a[2] == "Equal" and is_call(a[1], "cmp"):
+                    x, y = a[1][2][0], a[1][2][1]
+                    eqs.append(lin_sub(lin(x), lin(y)))
+                elif v and a[0] == "bin" and a[1] == "Eq":
+                    eqs.append(lin_sub(lin(a[2]), lin(a[3])))
+            diff = lin_sub(ud, md)
+            for e in eqs:
+                for k in (1, -1, 2, -2):
+                    if diff and lin_key(diff) == lin_key({t: c * k for t, c in e.items()}):
+                        md = lin_add(md, diff)
+                        diff = {}
             outs.append((show_state(s), ud, md, ur, mr))
     return outs
 
